@@ -26,6 +26,7 @@ CONSTRUCTS = [
     ("filter", ["${'t' | @@}"], 0),
     ("text-after-multiline", ["<%doc>", "one", "two", "</%doc>", "${@@}"], 4),
     ("after-continuation", ["plain \\", "continued", "${@@}"], 2),
+    ("after-unicode-line-separators", ["sep \u2028 ff \x0c nel \x85 vt \x0b fs \x1c inside one line", "second", "${@@}"], 2),
 ]
 BENIGN = {"filter": "str"}
 
